@@ -46,11 +46,17 @@ func exportedOfMain(p *Prog) (map[string]bool, error) {
 			for _, fl := range fd.Type.Params.List {
 				n += max(len(fl.Names), 1)
 			}
-			r, sz := utf8.DecodeRuneInString(fd.Name.Name)
-			out[fmt.Sprintf("%s/%d", string(unicode.ToLower(r))+fd.Name.Name[sz:], n)] = true
+			out[fmt.Sprintf("%s/%d", lowerFirst(fd.Name.Name), n)] = true
 		}
 	}
 	return out, nil
+}
+
+// lowerFirst is the manifest spelling of a Go function name: the first letter
+// (whatever its width in UTF-8) in lower case, the rest unchanged.
+func lowerFirst(name string) string {
+	r, sz := utf8.DecodeRuneInString(name)
+	return string(unicode.ToLower(r)) + name[sz:]
 }
 
 // metaProg returns the disagreements between the manifest / debug information
@@ -69,6 +75,9 @@ func (c *compiled) metaProg(p *Prog) []string {
 			continue
 		}
 		k := fmt.Sprintf("%s/%d", m.Name, len(m.Parameters))
+		if !utf8.ValidString(m.Name) {
+			bad = append(bad, fmt.Sprintf("manifest method name %q is not valid UTF-8", m.Name))
+		}
 		if got[k] {
 			bad = append(bad, "manifest lists method "+k+" twice")
 		}
@@ -105,6 +114,9 @@ func (c *compiled) metaProg(p *Prog) []string {
 	for i := range c.di.Methods {
 		m := &c.di.Methods[i]
 		nMetaRanges.Inc()
+		if m.ID != manifest.MethodInit && m.ID != manifest.MethodDeploy && m.Name.Name != lowerFirst(m.ID) {
+			bad = append(bad, fmt.Sprintf("debug info names method %s %q, want %q", m.ID, m.Name.Name, lowerFirst(m.ID)))
+		}
 		s, e := int(m.Range.Start), int(m.Range.End)
 		if s > e || e >= len(c.script) {
 			bad = append(bad, fmt.Sprintf("debug info range of %s is %d..%d in a script of %d bytes", m.ID, s, e, len(c.script)))
